@@ -9,7 +9,7 @@ PROP = "C04"
 THEOREMS = ["GitAi.Split3.classify_spec", "GitAi.Split3.split_coordinates_partial",
             "GitAi.Split3.witness_unstaged_deletion", "GitAi.Split3.split_outputs_wf",
             "GitAi.Sys.every_commit_exact", "GitAi.Sys.pending_line_carried",
-            "GitAi.Sys.witness_pending_edited_before_checkpoint"]
+            "GitAi.Sys.regression_pending_edited_before_checkpoint"]
 
 
 def regions(head, work):
@@ -200,8 +200,6 @@ def _run_scenario(sc):
                 for sig, d in fs:
                     if sig == "ws-only-retouch-of-committed-ai-line":
                         pass
-                    elif d.get("path") in stale_initial:
-                        sig = "pending-ai-lines-edited-by-person-before-next-checkpoint"
                     elif d.get("path") in o2_taint:
                         sig = "unstaged-non-insertion-change-above-ai-line"
                     failures.append((sig, d))
@@ -221,7 +219,7 @@ def _run_scenario(sc):
             # files on which the binary deviates from the idealised model through a recorded finding
             idealised = {d.get("path") for sig, d in failures
                          if sig == "uncommitted-ai-line-reindented-below-a-line-inserted-in-the-same-interval"}
-            sc["_skip"] = sorted(stale_initial | o2_taint | idealised)
+            sc["_skip"] = sorted(o2_taint | idealised)
     except Exception as ex:
         failures.append(("runner-exception", {"error": repr(ex), "trace": traceback.format_exc()[-1500:]}))
     return failures, ncommits, corr
